@@ -490,6 +490,19 @@ type escFail struct {
 }
 
 func escSequentialVerdict(esc, un escProgram) (fail []escFail, undecided string, proved []string) {
+	// an escape program that starts by DEcoding (escape(unescape(x)), "make escaping idempotent") is not injective:
+	// the text that spells an entity and the character the entity stands for are written alike
+	for _, pr := range esc.flat() {
+		if utf8.RuneCountInString(pr[0]) > 1 && pr[1] != "" {
+			a, b := escRun(esc, pr[0]), escRun(esc, pr[1])
+			if a == b && pr[0] != pr[1] {
+				fail = append(fail, escFail{pos: esc.stages[0].pos, msg: fmt.Sprintf("the escaping function writes the text %q and the text %q alike (both as %q): it decodes before it encodes, so text that spells an entity is read back as the character the entity stands for", pr[0], pr[1], a)})
+			}
+		}
+	}
+	if len(fail) > 0 {
+		return fail, "", nil
+	}
 	srcs := map[string]bool{}
 	for _, pr := range esc.flat() {
 		if utf8.RuneCountInString(pr[0]) != 1 {
@@ -549,4 +562,12 @@ func escapeWith(pairs [][2]string, s string) string {
 		args = append(args, pr[0], pr[1])
 	}
 	return strings.NewReplacer(args...).Replace(s)
+}
+
+// escRun applies the extracted replacement program to a constant (each stage a simultaneous replacement, in order).
+func escRun(e escProgram, s string) string {
+	for _, st := range e.stages {
+		s = escapeWith(st.pairs, s)
+	}
+	return s
 }
